@@ -70,6 +70,20 @@ func (config *Config) InterpolateParameters(interpolator func(input string) stri
 	}
 }
 
+// enumMemberIdentifier gives the function that names the members of an enum,
+// or nil when they are not named: a union of values has no member names.
+func (config *Config) enumMemberIdentifier() func(member ast.EnumValue) string {
+	if config.EnumsAsUnionTypes {
+		return nil
+	}
+
+	return enumMemberIdentifier
+}
+
+func enumMemberIdentifier(member ast.EnumValue) string {
+	return formatEnumMemberName(member.Name)
+}
+
 func (config *Config) enumFormatter(packageMapper packageMapper) enumFormatter {
 	if config.EnumsAsUnionTypes {
 		return &enumAsDisjunctionFormatter{}
@@ -147,6 +161,8 @@ func (language *Language) Jennies(globalConfig languages.Config) *codejen.JennyL
 func (language *Language) CompilerPasses() compiler.Passes {
 	return compiler.Passes{
 		&compiler.RenameNumericEnumValues{},
+		// members named after operators (`"<"`, `">"`) or names that only differ by case
+		&compiler.EnumMemberIdentifiers{Language: LanguageRef, Identifier: language.config.enumMemberIdentifier()},
 	}
 }
 
